@@ -3,6 +3,7 @@ import ComposeVerif.Ops.C07
 import ComposeVerif.Model.EnvLayers
 import ComposeVerif.Spec.EnvLayers
 import ComposeVerif.Model.EnvLayersLoad
+import ComposeVerif.Model.EnvLayersSites
 /-! line-protocol ops for C16: `c16.env`, `c16.labels`, `c16.load` (model) and `c16.spec` (specification) -/
 open Lean
 namespace CV.Ops.C16
@@ -144,8 +145,22 @@ def loadOp : Handler := fun args =>
   let cfg : LoadCfg := { skipNormalization := getBool args "skip_normalization",
                          skipResolveEnvironment := getBool args "skip_resolve_environment",
                          discard := getBool args "discard" }
-  outJson (loadProjectY cfg penv fs ((arr args "services").map fun j =>
-    ((serviceOfJson j).1, { yenv := yenvOf j, ylabels := ylabelsOf j, svc := (serviceOfJson j).2 })))
+  let svcs := (arr args "services").map fun j =>
+    ((serviceOfJson j).1, ({ yenv := yenvOf j, ylabels := ylabelsOf j, svc := (serviceOfJson j).2 } : YService))
+  -- `methods`: the second call site (load with SkipResolveEnvironment, then the Project method); `layout` is not read:
+  -- the model is the same wherever the services are written (`relocation_env`, `relocation_labels`)
+  if getBool args "methods" then outJson (loadThenResolveY cfg penv fs svcs)
+  else outJson (loadProjectY cfg penv fs svcs)
+
+/-- model of the decoded `environment` of two services of an *included* file — the same entries in mapping form (`map`)
+    and in sequence form (`seq`) — with the include's env file `ifile` -/
+def incenvOp : Handler := fun args =>
+  let penv := penvOf args
+  let ifile := (getStrMap args "ifile").map fun p => (p.1.toList, p.2.toList)
+  let cfg : LoadCfg := { skipNormalization := getBool args "skip_normalization", skipResolveEnvironment := true, discard := false }
+  let kvs := pairsOpt args "entries"
+  Json.mkObj [("map", mweJson (loadedEnvIncluded cfg penv ifile (.map kvs))),
+              ("seq", mweJson (loadedEnvIncluded cfg penv ifile (YEnv.asList kvs)))]
 
 /-! ### specification op (direct oracle) -/
 open CV.EnvLayers.Spec
@@ -195,6 +210,6 @@ def specOp : Handler := fun args =>
         | some v => some (String.ofList k, str v)))]
 
 def handlers : List (String × Handler) :=
-  [("c16.env", envOp), ("c16.labels", labelsOp), ("c16.resolve", resolveOp), ("c16.load", loadOp), ("c16.spec", specOp)]
+  [("c16.env", envOp), ("c16.labels", labelsOp), ("c16.resolve", resolveOp), ("c16.load", loadOp), ("c16.spec", specOp), ("c16.incenv", incenvOp)]
 
 end CV.Ops.C16
